@@ -224,6 +224,8 @@ func checkC30(w *World, r *Run) {
 
 	checkC30Modes(w, r, ruleModes)
 	checkC30Install(w, r, ruleInstall)
+	ruleDown := r.Rule("decoder-errors-reach-the-part-write", "F1", "below the handler the compression middleware keeps the request body chained behind its sample on every path, so the ErrUnexpectedEOF of a truncated aws-chunked body fails the write", 1)
+	checkCompressionChainsSource(w, r, ruleDown)
 	r.NotCovered("chunk-size arithmetic and buffer boundaries over all chunkings; HMAC chain values; behaviour of clients that omit x-amz-decoded-content-length")
 	_ = types.Universe
 }
